@@ -170,21 +170,34 @@ class History:
         r = self.rec_in(prev_txn, oid) if prev_txn is not None else None
         self._add((oid, data, prev_txn if (r is not None and r[1] == data) else None))
 
+    def _current_data(self, oid):
+        """bytes of the newest record of oid, staged records of this transaction first"""
+        for r in reversed(self.staged['recs']):
+            if r[0] == oid:
+                return r[1]
+        rs = self.revs(oid)
+        return rs[-1][1][1] if rs else None
+
     def undo(self, tid):
         """spec of undo: every object written by `tid` gets the state it had before `tid`, shared
-        with the revision that held it"""
+        with the revision that held it.  A transaction that stored an object several times holds
+        several records of it; an overwritten (not the last) one yields an undo record of its own
+        only when its bytes are the object's current bytes (otherwise that record alone "cannot be
+        undone", and the object's last record decides)."""
         t = [x for x in self.txns if x['tid'] == tid][0]
-        final = {}
-        for r in t['recs']:
-            final[r[0]] = r[1]
-        for r in t['recs']:
-            if r[1] != final[r[0]]:
-                continue            # an overwritten earlier store of the same transaction
+        new = []
+        for i, r in enumerate(t['recs']):
+            if any(x[0] == r[0] for x in t['recs'][i + 1:]):
+                cur = self._current_data(r[0])
+                if r[1] is None or cur is None or r[1] != cur:
+                    continue
             before = [x for x in self.revs(r[0]) if x[0]['tid'] < tid]
             if before:
-                self._add((r[0], before[-1][1][1], before[-1][0]['tid']))
+                new.append((r[0], before[-1][1][1], before[-1][0]['tid']))
             else:
-                self._add((r[0], None, None))
+                new.append((r[0], None, None))
+        for rec in new:
+            self._add(rec)
 
     def finish(self):
         self.txns.append(self.staged)
